@@ -1025,4 +1025,336 @@ theorem dirtyFlag_depends_on_history :
 example : dRun {} [{ give := some { items := [1] }, ops := [.app 2] }, { ops := [.dec] }] =
     [{ items := [1, 2] }, { items := [1], ctr := -1 }] := by decide
 
+/-! ## Objects the host keeps across invocations (round 7)
+
+All statements are about `kStep` (Impl: `activateFunction` resolves a function's code in the
+current `vm.loadedCode`), for ALL machine states - hence after every history of RunCode (same,
+other, grown code objects; ending with a value, an error or a panic; firing kept callbacks from a
+host builtin), `vm.Get`-and-keep, calls of kept objects and reads of kept lists. -/
+
+/-- **A kept function sees the current globals.**  Whatever state a history left behind: a call of
+    a kept function/closure `f` of code object `c`, while a load `g` of `c` is current, executes
+    the function's body on exactly that array `g`, stores the result there and touches nothing
+    else - in particular no array of an earlier load (`old`) and not the host's table. -/
+theorem kept_function_sees_current_globals (s : KSt) (i : Nat) (c : Nat) (f : KFn) (n : Int) (g : KG)
+    (hk : s.kept[i]? = some (.fn c f)) (hc : s.cur = some g) (hg : g.code = c) :
+    kStep s (.call i n) = ({ s with cur := some (kApply f n g).1 }, (kApply f n g).2) := by
+  simp [kStep, kCallObj, kCallFn, hk, hc, hg]
+
+/-- the same after any history on a new VM -/
+theorem kept_function_sees_current_globals_history (h : List KInv) (i c : Nat) (f : KFn) (n : Int) (g : KG)
+    (hk : (kAfter h).kept[i]? = some (.fn c f)) (hc : (kAfter h).cur = some g) (hg : g.code = c) :
+    (kStep (kAfter h) (.call i n)).2 = (kApply f n g).2 ∧
+    (kStep (kAfter h) (.call i n)).1.cur = some (kApply f n g).1 ∧
+    (kStep (kAfter h) (.call i n)).1.old = (kAfter h).old := by
+  rw [kept_function_sees_current_globals _ i c f n g hk hc hg]
+  exact ⟨rfl, rfl, rfl⟩
+
+/-- a kept function whose root code object is not the loaded one fails (`loadChildCode` on a nil
+    root: recovered panic) and changes nothing - whatever else the history did -/
+theorem kept_function_of_unloaded_code_fails (s : KSt) (i c : Nat) (f : KFn) (n : Int)
+    (hk : s.kept[i]? = some (.fn c f)) (hc : ∀ g, s.cur = some g → g.code ≠ c) :
+    kStep s (.call i n) = (s, .notLoaded) := by
+  simp only [kStep, kCallObj, hk, kCallFn]
+  cases hcur : s.cur with
+  | none => rfl
+  | some g => simp [hc g hcur]
+
+/-- **Calling a kept function object = fetching it again and calling that** (`bump`, `peek`):
+    same result, same machine afterwards. -/
+theorem kept_call_equals_fresh_fetch_call (s : KSt) (i : Nat) (g : KG) (n : Int)
+    (hc : s.cur = some g) :
+    (s.kept[i]? = some (.fn g.code .bump) → kStep s (.call i n) = kStep s (.callFresh .bump n)) ∧
+    (s.kept[i]? = some (.fn g.code .peek) → kStep s (.call i n) = kStep s (.callFresh .peek n)) := by
+  constructor <;> intro hk <;> simp [kStep, kCallObj, kFetch, hk, hc]
+
+/-- … for a kept closure (captured value `k`, possibly of an earlier load): the globals end up
+    exactly as after a call of the freshly fetched closure; only the captured value is its own. -/
+theorem kept_closure_call_equals_fresh_fetch_call (s : KSt) (i : Nat) (g : KG) (k n : Int)
+    (hc : s.cur = some g) (hk : s.kept[i]? = some (.fn g.code (.clo k))) :
+    (kStep s (.call i n)).1 = (kStep s (.callFresh .cl n)).1 ∧
+    (kStep s (.call i n)).2 = .ok k (g.x + n) ∧ (kStep s (.callFresh .cl n)).2 = .ok g.k (g.x + n) := by
+  simp [kStep, kCallObj, kCallFn, kFetch, hk, hc, kApply]
+
+/-- the Impl result of every invocation is the Spec (`kSpecRes`: fresh fetch / forgotten loads) -/
+def KEq (s₁ s₂ : KSt) : Prop := s₁.cur = s₂.cur ∧ s₁.kept.map KObj.callee = s₂.kept.map KObj.callee
+
+theorem kEq_iff_view (s₁ s₂ : KSt) : KEq s₁ s₂ ↔ kView s₁ = kView s₂ := by
+  simp [KEq, kView]
+
+theorem kCallFn_eq (s₁ s₂ : KSt) (e : KEq s₁ s₂) (c : Nat) (f : KFn) (n : Int) :
+    (kCallFn s₁ c f n).2 = (kCallFn s₂ c f n).2 ∧ KEq (kCallFn s₁ c f n).1 (kCallFn s₂ c f n).1 := by
+  obtain ⟨hc, hk⟩ := e
+  cases hcur : s₂.cur with
+  | none =>
+    have h1 : s₁.cur = none := hc.trans hcur
+    have a1 : kCallFn s₁ c f n = (s₁, .notLoaded) := by simp [kCallFn, h1]
+    have a2 : kCallFn s₂ c f n = (s₂, .notLoaded) := by simp [kCallFn, hcur]
+    rw [a1, a2]; exact ⟨rfl, hc, hk⟩
+  | some g =>
+    have h1 : s₁.cur = some g := hc.trans hcur
+    by_cases hg : g.code = c
+    · have a1 : kCallFn s₁ c f n = ({ s₁ with cur := some (kApply f n g).1 }, (kApply f n g).2) := by
+        simp [kCallFn, h1, hg]
+      have a2 : kCallFn s₂ c f n = ({ s₂ with cur := some (kApply f n g).1 }, (kApply f n g).2) := by
+        simp [kCallFn, hcur, hg]
+      rw [a1, a2]; exact ⟨rfl, rfl, hk⟩
+    · have a1 : kCallFn s₁ c f n = (s₁, .notLoaded) := by simp [kCallFn, h1, hg]
+      have a2 : kCallFn s₂ c f n = (s₂, .notLoaded) := by simp [kCallFn, hcur, hg]
+      rw [a1, a2]; exact ⟨rfl, hc, hk⟩
+
+theorem kCallObj_eq (s₁ s₂ : KSt) (e : KEq s₁ s₂) (o₁ o₂ : Option KObj)
+    (ho : o₁.map KObj.callee = o₂.map KObj.callee) (n : Int) :
+    (kCallObj s₁ o₁ n).2 = (kCallObj s₂ o₂ n).2 ∧ KEq (kCallObj s₁ o₁ n).1 (kCallObj s₂ o₂ n).1 := by
+  cases o₁ with
+  | none =>
+    cases o₂ with
+    | none => exact ⟨rfl, e⟩
+    | some b => cases b <;> simp [KObj.callee] at ho <;> exact ⟨rfl, e⟩
+  | some a =>
+    cases o₂ with
+    | none => simp at ho
+    | some b =>
+      cases a with
+      | list ga =>
+        cases b with
+        | list gb => exact ⟨rfl, e⟩
+        | fn cb fb => simp [KObj.callee] at ho
+      | fn ca fa =>
+        cases b with
+        | list gb => simp [KObj.callee] at ho
+        | fn cb fb =>
+          simp [KObj.callee] at ho
+          obtain ⟨h1, h2⟩ := ho
+          subst h1; subst h2
+          exact kCallFn_eq s₁ s₂ e _ _ n
+
+theorem kept_get_callee (s₁ s₂ : KSt) (e : KEq s₁ s₂) (i : Nat) :
+    (s₁.kept[i]?).map KObj.callee = (s₂.kept[i]?).map KObj.callee := by
+  rw [← List.getElem?_map, ← List.getElem?_map, e.2]
+
+theorem kFinish_eq (fl : Bool) (sn : Nat) (r₁ r₂ : KSt × KRes) (h2 : r₁.2 = r₂.2) (h1 : KEq r₁.1 r₂.1) :
+    (kFinish fl sn r₁).2 = (kFinish fl sn r₂).2 ∧ KEq (kFinish fl sn r₁).1 (kFinish fl sn r₂).1 := by
+  obtain ⟨s₁, q₁⟩ := r₁
+  obtain ⟨s₂, q₂⟩ := r₂
+  simp only at h2 h1
+  subst h2
+  by_cases hn : q₁ = .notLoaded
+  · have a : ∀ s : KSt, kFinish fl sn (s, q₁) = (s, .ranPanic) := by intro s; simp [kFinish, hn]
+    rw [a, a]; exact ⟨rfl, h1⟩
+  · cases fl with
+    | true =>
+      have a : ∀ s : KSt, kFinish true sn (s, q₁) = (s, .ranErr) := by intro s; simp [kFinish, hn]
+      rw [a, a]; exact ⟨rfl, h1⟩
+    | false =>
+      have a : ∀ s : KSt, kFinish false sn (s, q₁) =
+          ({ s with cur := s.cur.map (fun g => { g with x := g.x + 10 + 1000 * sn }) }, .ranOk) := by
+        intro s; simp [kFinish, hn]
+      rw [a, a]
+      refine ⟨rfl, ?_, h1.2⟩
+      show s₁.cur.map _ = s₂.cur.map _
+      rw [h1.1]
+
+/-- a RunCode does not even depend on the array of the load it replaces -/
+theorem kRunCode_eq (s₁ s₂ : KSt) (hk : s₁.kept.map KObj.callee = s₂.kept.map KObj.callee)
+    (c : Nat) (p : Int) (sn : Nat) (fr : Option (Nat × Int)) (fl : Bool) :
+    (kRunCode s₁ c p sn fr fl).2 = (kRunCode s₂ c p sn fr fl).2 ∧
+      KEq (kRunCode s₁ c p sn fr fl).1 (kRunCode s₂ c p sn fr fl).1 := by
+  have e1 : KEq (kLoad s₁ c p) (kLoad s₂ c p) := by
+    refine ⟨rfl, ?_⟩
+    simp only [kLoad, List.map_append, hk]
+  unfold kRunCode
+  cases fr with
+  | none => exact kFinish_eq fl sn _ _ rfl e1
+  | some q =>
+    have := kCallObj_eq _ _ e1 _ _ (kept_get_callee _ _ e1 q.1) q.2
+    exact kFinish_eq fl sn _ _ this.1 this.2
+
+/-- **One step depends on the view only**: two machines that agree on the array of the current
+    load and on which functions the host keeps (and may differ in every array of an earlier load,
+    i.e. in everything earlier invocations accumulated) answer every invocation - RunCode with or
+    without a fired callback, keep, call of a kept object, fresh call - alike and agree afterwards.
+    (Reading a kept LIST is excluded: its contents are the list's own state.) -/
+theorem C07_kept_step (s₁ s₂ : KSt) (e : KEq s₁ s₂) (v : KInv) (hv : ∀ i, v ≠ .read i) :
+    (kStep s₁ v).2 = (kStep s₂ v).2 ∧ KEq (kStep s₁ v).1 (kStep s₂ v).1 := by
+  have hfetch : ∀ w, (kFetch s₁ w).map KObj.callee = (kFetch s₂ w).map KObj.callee := by
+    intro w
+    unfold kFetch
+    rw [e.1]
+    cases s₂.cur with
+    | none => rfl
+    | some g => cases w <;> rfl
+  cases v with
+  | read i => exact absurd rfl (hv i)
+  | call i n => exact kCallObj_eq s₁ s₂ e _ _ (kept_get_callee s₁ s₂ e i) n
+  | keep w =>
+    have hf := hfetch w
+    show (match kFetch s₁ w with | some o => ({ s₁ with kept := s₁.kept ++ [o] }, KRes.kept) | none => (s₁, KRes.noCode)).2 =
+         (match kFetch s₂ w with | some o => ({ s₂ with kept := s₂.kept ++ [o] }, KRes.kept) | none => (s₂, KRes.noCode)).2 ∧
+         KEq (match kFetch s₁ w with | some o => ({ s₁ with kept := s₁.kept ++ [o] }, KRes.kept) | none => (s₁, KRes.noCode)).1
+             (match kFetch s₂ w with | some o => ({ s₂ with kept := s₂.kept ++ [o] }, KRes.kept) | none => (s₂, KRes.noCode)).1
+    cases h1 : kFetch s₁ w with
+    | none =>
+      cases h2 : kFetch s₂ w with
+      | none => exact ⟨rfl, e⟩
+      | some b => rw [h1, h2] at hf; simp at hf
+    | some a =>
+      cases h2 : kFetch s₂ w with
+      | none => rw [h1, h2] at hf; simp at hf
+      | some b =>
+        rw [h1, h2] at hf
+        refine ⟨rfl, e.1, ?_⟩
+        show (s₁.kept ++ [a]).map KObj.callee = (s₂.kept ++ [b]).map KObj.callee
+        simp only [Option.map_some, Option.some.injEq] at hf
+        simp only [List.map_append, e.2, List.map_cons, List.map_nil, hf]
+  | callFresh w n =>
+    have hf := hfetch w
+    show (match kFetch s₁ w with | some o => kCallObj s₁ (some o) n | none => (s₁, KRes.noCode)).2 =
+         (match kFetch s₂ w with | some o => kCallObj s₂ (some o) n | none => (s₂, KRes.noCode)).2 ∧
+         KEq (match kFetch s₁ w with | some o => kCallObj s₁ (some o) n | none => (s₁, KRes.noCode)).1
+             (match kFetch s₂ w with | some o => kCallObj s₂ (some o) n | none => (s₂, KRes.noCode)).1
+    cases h1 : kFetch s₁ w with
+    | none =>
+      cases h2 : kFetch s₂ w with
+      | none => exact ⟨rfl, e⟩
+      | some b => rw [h1, h2] at hf; simp at hf
+    | some a =>
+      cases h2 : kFetch s₂ w with
+      | none => rw [h1, h2] at hf; simp at hf
+      | some b =>
+        rw [h1, h2] at hf
+        exact kCallObj_eq s₁ s₂ e _ _ hf n
+  | runCode c p sn fr fl => exact kRunCode_eq s₁ s₂ e.2 c p sn fr fl
+
+/-- **Independence of the past, with kept objects.**  Take ANY two histories `h₁`, `h₂` (different
+    lengths; RunCode of any code objects with any parameters and endings; any calls of kept
+    functions, which accumulate values in the arrays of their loads) after which the array of the
+    current load reads the same and the host keeps the same functions, and continue both with the
+    same invocations `t` (RunCode - same, other, grown code object, firing kept callbacks -,
+    `vm.Get`-and-keep, calls of kept functions and closures made in ANY earlier load, fresh calls):
+    every one of them gives the same result after both. -/
+theorem C07_kept_independent_of_history (h₁ h₂ : List KInv) (t : List KInv)
+    (hv : kView (kAfter h₁) = kView (kAfter h₂)) (ht : ∀ v ∈ t, ∀ i, v ≠ .read i) :
+    kRunFrom (kAfter h₁) t = kRunFrom (kAfter h₂) t := by
+  have e := (kEq_iff_view _ _).2 hv
+  generalize kAfter h₁ = s₁ at e
+  generalize kAfter h₂ = s₂ at e
+  clear hv
+  induction t generalizing s₁ s₂ with
+  | nil => rfl
+  | cons v rest ih =>
+    have hs := C07_kept_step s₁ s₂ e v (ht v List.mem_cons_self)
+    simp only [kRunFrom]
+    rw [hs.1, ih (fun w hw => ht w (List.mem_cons_of_mem _ hw)) _ _ hs.2]
+
+/-- the hypothesis is satisfiable by different histories: one with, one without a call that
+    accumulated a value in the first load -/
+example : kView (kAfter [.runCode 0 5 0 none false, .call 0 7, .runCode 0 5 0 none false]) =
+    kView (kAfter [.runCode 0 5 0 none false, .runCode 0 5 0 none false]) := by decide
+
+/-- **The Impl result is the Spec** for every invocation in every state: a call of a kept
+    function answers as the freshly fetched one (own captured value for a closure), or fails
+    because its code is not loaded; a RunCode answers as on a VM that has forgotten every
+    earlier load. -/
+theorem C07_kept_full (s : KSt) (v : KInv) : (kStep s v).2 = kSpecRes s v := by
+  cases v with
+  | read i => rfl
+  | keep w => exact (C07_kept_step s { s with old := [] } ⟨rfl, rfl⟩ (.keep w) (by intro i h; cases h)).1
+  | callFresh w n =>
+    exact (C07_kept_step s { s with old := [] } ⟨rfl, rfl⟩ (.callFresh w n) (by intro i h; cases h)).1
+  | runCode c p sn fr fl => exact (kRunCode_eq s { s with old := [], cur := none } rfl c p sn fr fl).1
+  | call i n =>
+    simp only [kSpecRes, kStep]
+    cases hk : s.kept[i]? with
+    | none => rfl
+    | some o =>
+      cases o with
+      | list g => cases s.cur <;> rfl
+      | fn c f =>
+        cases hc : s.cur with
+        | none => simp [kCallObj, kCallFn, hc]
+        | some g =>
+          by_cases hg : g.code = c
+          · cases f <;> simp [kCallObj, kCallFn, kFetch, hc, hg, kApply]
+          · simp [kCallObj, kCallFn, hc, hg]
+
+/-- **The arrays of earlier loads are frozen**: no invocation changes one (the list only grows at
+    its end, when a RunCode retires the current array) … -/
+theorem kept_dead_arrays_frozen (s : KSt) (v : KInv) : ∃ t, (kStep s v).1.old = s.old ++ t := by
+  have hf : ∀ (s : KSt) c f n, (kCallFn s c f n).1.old = s.old := by
+    intro s c f n
+    unfold kCallFn
+    cases s.cur with
+    | none => rfl
+    | some g => by_cases hg : g.code = c <;> simp [hg]
+  have ho : ∀ (s : KSt) o n, (kCallObj s o n).1.old = s.old := by
+    intro s o n
+    cases o with
+    | none => rfl
+    | some a => cases a with
+      | list g => rfl
+      | fn c f => exact hf _ _ _ _
+  have hfin : ∀ fl sn (r : KSt × KRes), (kFinish fl sn r).1.old = r.1.old := by
+    intro fl sn r
+    unfold kFinish
+    by_cases hn : r.2 = .notLoaded
+    · simp [hn]
+    · cases fl <;> simp [hn]
+  cases v with
+  | read i =>
+    refine ⟨[], ?_⟩
+    show (match s.kept[i]? with
+      | some (.list g) => (s, match kReadList s g with | some xs => KRes.listIs xs | none => KRes.badTarget)
+      | _ => (s, KRes.badTarget)).1.old = s.old ++ []
+    split <;> simp
+  | keep w =>
+    refine ⟨[], ?_⟩
+    show (match kFetch s w with | some o => ({ s with kept := s.kept ++ [o] }, KRes.kept) | none => (s, KRes.noCode)).1.old = s.old ++ []
+    split <;> simp
+  | call i n => exact ⟨[], by simp [kStep, ho]⟩
+  | callFresh w n =>
+    refine ⟨[], ?_⟩
+    show (match kFetch s w with | some o => kCallObj s (some o) n | none => (s, KRes.noCode)).1.old = s.old ++ []
+    split <;> simp [ho]
+  | runCode c p sn fr fl =>
+    refine ⟨s.cur.toList, ?_⟩
+    show (kRunCode s c p sn fr fl).1.old = _
+    unfold kRunCode
+    rw [hfin]
+    cases fr with
+    | none => rfl
+    | some q => exact ho _ _ _
+
+/-- … so a list the host kept from an earlier load reads the same after every later invocation,
+    whatever kept functions are called (they append to the CURRENT load's list). -/
+theorem kept_list_of_dead_load_is_frozen (s : KSt) (v : KInv) (gen : Nat) (h : gen < s.old.length) :
+    kReadList (kStep s v).1 gen = kReadList s gen := by
+  obtain ⟨t, ht⟩ := kept_dead_arrays_frozen s v
+  unfold kReadList
+  rw [ht]
+  have h1 : gen ≠ s.old.length := by omega
+  have h2 : gen ≠ (s.old ++ t).length := by simp; omega
+  simp only [h1, h2, if_false]
+  rw [List.getElem?_append_left h]
+
+/-- RunCode(A, p=100); Call(the registered callback, 5); RunCode(A, p=100); Call(the callback
+    kept from the FIRST run, 5); Call(the freshly fetched `bump`, 0) -/
+def witnessKept : List KInv :=
+  [.runCode 0 100 0 none false, .call 0 5, .runCode 0 100 0 none false, .call 0 5, .callFresh .peek 0]
+
+/-- **The forbidden variant is not independent of the history** (contrast): when a function
+    object remembers the loaded code of its first call, the kept callback called after the second
+    RunCode works on the FIRST load's array (121 = 111 + 5 + 5, and the VM's current global stays
+    111); as the code is it returns 116 and the current global is 116.  Without the first call
+    (nothing remembered before the reset) the variant agrees with the code as it is. -/
+theorem cachedCode_depends_on_history :
+    kcRunFrom {} witnessKept = [.ranOk, .ok 0 116, .ranOk, .ok 0 121, .ok 0 111] ∧
+    kRunFrom {} witnessKept = [.ranOk, .ok 0 116, .ranOk, .ok 0 116, .ok 0 116] ∧
+    kcRunFrom {} (witnessKept.eraseIdx 1) = kRunFrom {} (witnessKept.eraseIdx 1) := by
+  decide
+
+example : kRunFrom {} [.runCode 0 1 0 none false, .keep .cl, .keep .items, .runCode 1 2 0 (some (0, 3)) false,
+    .call 1 4, .read 2] = [.ranOk, .kept, .kept, .ranPanic, .notLoaded, .listIs [1]] := by decide
+
+
 end Risor.C07
